@@ -2,7 +2,10 @@
 From RecordUpdate Require Import RecordUpdate.
 From Coq Require Import List ZArith NArith Lia Bool Arith.
 From Coq.Strings Require Import Byte.
+From Coq Require Import String.
 From L3 Require Import Tls.
+From L3 Require Settings.
+From L3G Require SettingsTable.
 Import ListNotations.
 
 Theorem c17_tls_when_requested : forall (f : bool) (c : cfg) (s : server) (t : transport), tls_requested c = true -> result (establish f c s) = Established t -> t = Tls.
@@ -23,9 +26,21 @@ Proof. exact Tls.c17_untrusted_fails_unless_disabled. Qed.
 Theorem c17_preface_bytes_dropped : forall (f : bool) (c : cfg) (s : server), cleartext_bytes_fed_to_ldap_decoder_after_tls (establish f c s) = [].
 Proof. exact Tls.c17_preface_bytes_dropped. Qed.
 
+(* the settings builder (table regenerated from src/conn.rs on every run): every setter assigns exactly its own field from its parameter, no two share a field ... *)
+Theorem c17_settings_table : SettingsTable.settings_table = Settings.expected_settings /\ Settings.nodups (map (fun r => snd (fst r)) SettingsTable.settings_table) = true.
+Proof. exact Settings.c17_settings_table. Qed.
+(* ... so a setter leaves every other setting as it was (StartTLS requested before a connection timeout is set stays requested) and the order of the builder calls is irrelevant *)
+Theorem c17_setter_touches_one_field : forall (val : Type) (m : string) (v : val) (s : Settings.store val) (f g : string), Settings.field_of m = Some f -> g <> f -> Settings.setter val m v s g = s g.
+Proof. exact Settings.c17_setter_touches_one_field. Qed.
+Theorem c17_setters_commute : forall (val : Type) (m1 m2 : string) (v1 v2 : val) (s : Settings.store val) (g : string), m1 <> m2 -> Settings.setter val m1 v1 (Settings.setter val m2 v2 s) g = Settings.setter val m2 v2 (Settings.setter val m1 v1 s) g.
+Proof. exact Settings.c17_setters_commute. Qed.
+
 Print Assumptions c17_tls_when_requested.
 Print Assumptions c17_cleartext_only_starttls.
 Print Assumptions c17_nonzero_rc_fails.
 Print Assumptions c17_handshake_failure_fails.
 Print Assumptions c17_untrusted_fails_unless_disabled.
 Print Assumptions c17_preface_bytes_dropped.
+Print Assumptions c17_settings_table.
+Print Assumptions c17_setter_touches_one_field.
+Print Assumptions c17_setters_commute.
